@@ -37,6 +37,13 @@ func (u *Unit) recordCall(fr *Frame, st *State, c *ssa.CallCommon, res Val) {
 		u.callRes[name] = res
 	}
 	u.callRes[fmt.Sprintf("%s#%d", name, k)] = res
+	if st.callRes == nil {
+		st.callRes = map[string]Val{}
+	}
+	if k == 0 {
+		st.callRes[name] = res
+	}
+	st.callRes[fmt.Sprintf("%s#%d", name, k)] = res
 	if st.ghostCalled == nil {
 		st.ghostCalled = map[string]Term{}
 	}
@@ -53,7 +60,13 @@ func (u *Unit) evalRet(e *SExpr, env *Env) Val {
 	if len(e.Args) > 1 {
 		key = fmt.Sprintf("%s#%s", key, e.Args[1].Name)
 	}
-	v, ok := u.callRes[key]
+	v, ok := env.st.callRes[key]
+	if !ok {
+		v, ok = u.callRes[key]
+	}
+	if !ok {
+		v, ok = u.unmadeCall(key, env.st)
+	}
 	if !ok {
 		panic(missingCall{key})
 	}
@@ -270,4 +283,108 @@ func (u *Unit) evalLoopMeasure(e *SExpr, env *Env) (t Term, ok bool) {
 		}
 	}()
 	return u.evalInt(e, env), true
+}
+
+// havocLoopCalls: at a loop head the call history of the sites inside the loop is unknown (the flags
+// called(...) may have become true, the last results ret(...) are arbitrary); loop invariants can
+// constrain them.
+func (u *Unit) havocLoopCalls(fr *Frame, li *loopInfo, st *State, reach Term) {
+	var blocks []*ssa.BasicBlock
+	for b := range li.blocks {
+		blocks = append(blocks, b)
+	}
+	for i := 1; i < len(blocks); i++ {
+		for j := i; j > 0 && blocks[j].Index < blocks[j-1].Index; j-- {
+			blocks[j], blocks[j-1] = blocks[j-1], blocks[j]
+		}
+	}
+	if st.ghostCalled == nil {
+		st.ghostCalled = map[string]Term{}
+	}
+	if st.callRes == nil {
+		st.callRes = map[string]Val{}
+	}
+	for _, b := range blocks {
+		for _, in := range b.Instrs {
+			ci, ok := in.(ssa.CallInstruction)
+			if !ok {
+				continue
+			}
+			c := ci.Common()
+			if _, isB := c.Value.(*ssa.Builtin); isB {
+				continue
+			}
+			full := u.calleeName(c)
+			keys := []string{"called:" + full}
+			if fr.parent == nil {
+				name := shortCallee(full)
+				k := u.siteIndex(fr.fn, c, func(n string) bool { return shortCallee(n) == name })
+				keys = append(keys, "called:"+name, fmt.Sprintf("called:%s#%d", name, k))
+				var resT types.Type
+				if v, ok := in.(ssa.Value); ok {
+					resT = v.Type()
+				} else {
+					resT = c.Signature().Results()
+				}
+				res := u.freshResult(st, resT, "last_"+name)
+				if k == 0 {
+					st.callRes[name] = res
+				}
+				st.callRes[fmt.Sprintf("%s#%d", name, k)] = res
+			}
+			for _, key := range keys {
+				old, ok := st.ghostCalled[key]
+				if !ok {
+					old = tFalse
+				}
+				nv := u.fresh("called", "Bool")
+				u.assume(reach, implies(old, nv))
+				st.ghostCalled[key] = nv
+			}
+		}
+	}
+}
+
+// unmadeCall: ret(Name[,k]) on a path where that call site has not been executed (yet): the value is
+// arbitrary (one fixed unknown per site). Only for sites the function under proof actually has.
+func (u *Unit) unmadeCall(key string, st *State) (Val, bool) {
+	if u.Fn == nil {
+		return Val{}, false
+	}
+	name, want := key, 0
+	if i := strings.Index(key, "#"); i >= 0 {
+		name = key[:i]
+		fmt.Sscanf(key[i+1:], "%d", &want)
+	}
+	for _, b := range u.Fn.Blocks {
+		for _, in := range b.Instrs {
+			ci, ok := in.(ssa.CallInstruction)
+			if !ok {
+				continue
+			}
+			c := ci.Common()
+			if _, isB := c.Value.(*ssa.Builtin); isB {
+				continue
+			}
+			if shortCallee(u.calleeName(c)) != name {
+				continue
+			}
+			if u.siteIndex(u.Fn, c, func(n string) bool { return shortCallee(n) == name }) != want {
+				continue
+			}
+			var resT types.Type
+			if v, ok := in.(ssa.Value); ok {
+				resT = v.Type()
+			} else {
+				resT = c.Signature().Results()
+			}
+			res := u.freshResult(st, resT, "unmade_"+name)
+			if u.callRes == nil {
+				u.callRes = map[string]Val{}
+			}
+			u.callRes[key] = res
+			return res, true
+		}
+	}
+	return Val{}, false
 }
